@@ -261,23 +261,28 @@ func checkC18(p *Prog, r *Report) {
 		// strings.Join(key.Strings(), sep), which FromStrings(strings.Split(s, sep)) inverts because no component contains sep.
 		// Any other way of joining the components (path.Join cleans "." and ".." segments, fmt with another verb, …) is not inverted.
 		if exp := p.Func(Rel("x/aol"), "ExportGenesis"); exp != nil {
-			eo := NewOrigin(p, exp)
 			nKeys := 0
-			for _, b := range exp.Blocks {
-				for _, in := range b.Instrs {
-					mu, ok := in.(*ssa.MapUpdate)
-					if !ok {
-						continue
+			for _, eu := range genesisUnits(p, exp) {
+				eo := eu.o
+				for _, b := range eu.fn.Blocks {
+					for _, in := range b.Instrs {
+						mu, ok := in.(*ssa.MapUpdate)
+						if !ok {
+							continue
+						}
+						if bt, isB := mu.Key.Type().Underlying().(*types.Basic); !isB || bt.Info()&types.IsString == 0 {
+							continue
+						}
+						nKeys++
+						kt := eo.Of(mu.Key)
+						fld, _ := rawFieldLoad(mu.Map)
+						if eu.resultField != "" && returnedFreshMap(eu.fn, mu.Map) {
+							fld = eu.resultField
+						}
+						okKey := kt.IsCall("types/compkey.EncodeToString") && len(kt.Args) == 2 && kt.Args[1].Op == "const" && kt.Args[1].Name == sepC
+						r.Check(okKey, kp("ORIGIN", "x/aol.ExportGenesis#"+fld+"-key=EncodeToString(key,sep)"), "the string form of an exported key is compkey.EncodeToString(key, GenesisKeySeparator), the form DecodeFromString inverts", p.Pos(mu.Pos()),
+							clip(kt.String(), 120), "the exported map key is "+clip(kt.String(), 200)+", not compkey.EncodeToString(key, "+sepC+"): a key whose components the other joiner rewrites (\".\", \"..\", empty segments) cannot be parsed back")
 					}
-					if bt, isB := mu.Key.Type().Underlying().(*types.Basic); !isB || bt.Info()&types.IsString == 0 {
-						continue
-					}
-					nKeys++
-					kt := eo.Of(mu.Key)
-					fld, _ := rawFieldLoad(mu.Map)
-					okKey := kt.IsCall("types/compkey.EncodeToString") && len(kt.Args) == 2 && kt.Args[1].Op == "const" && kt.Args[1].Name == sepC
-					r.Check(okKey, kp("ORIGIN", "x/aol.ExportGenesis#"+fld+"-key=EncodeToString(key,sep)"), "the string form of an exported key is compkey.EncodeToString(key, GenesisKeySeparator), the form DecodeFromString inverts", p.Pos(mu.Pos()),
-						clip(kt.String(), 120), "the exported map key is "+clip(kt.String(), 200)+", not compkey.EncodeToString(key, "+sepC+"): a key whose components the other joiner rewrites (\".\", \"..\", empty segments) cannot be parsed back")
 				}
 			}
 			r.Floor("aol-exported-string-keys", nKeys, 1)
@@ -560,7 +565,28 @@ func checkDecoderShape(p *Prog, r *Report, kp func(string, string) string, entry
 		}
 	}
 	okCp, whyCp := false, "no copy on the accepting path"
-	if cp != nil {
+	if cp == nil {
+		// append form: value := append(make([]byte, 0, n), bz[I+1 : I+1+n]...) — a fresh buffer of capacity n filled with exactly those bytes
+		for _, in := range acceptBlk.Instrs {
+			c, ok := in.(*ssa.Call)
+			if !ok {
+				continue
+			}
+			if b, isB := c.Call.Value.(*ssa.Builtin); !isB || b.Name() != "append" || len(c.Call.Args) != 2 {
+				continue
+			}
+			ms, ok1 := c.Call.Args[0].(*ssa.MakeSlice)
+			sl, ok2 := c.Call.Args[1].(*ssa.Slice)
+			if !ok1 || !ok2 || sl.X != ssa.Value(bz) || sl.Low == nil || sl.High == nil {
+				continue
+			}
+			lo := LinOf(sl.Low).Sub(LinOf(I))
+			hi := LinOf(sl.High).Sub(LinOf(sl.Low))
+			okCp = LinOf(ms.Len).IsConst(0) && lo.IsConst(1) && hi.Eq(Lin{Coef: map[string]int64{nSym: 1}}) && LinOf(ms.Cap).Eq(Lin{Coef: map[string]int64{nSym: 1}})
+			whyCp = fmt.Sprintf("append(make([]byte, 0, %s), bz[idx%s : low%s]...)", LinOf(ms.Cap), lo, hi)
+			cp = c
+		}
+	} else {
 		sl, ok1 := cp.Call.Args[1].(*ssa.Slice)
 		ms, ok2 := cp.Call.Args[0].(*ssa.MakeSlice)
 		if ok1 && ok2 && sl.X == ssa.Value(bz) && sl.Low != nil && sl.High != nil {
